@@ -3,6 +3,9 @@
    and only THEN fill_states(this), which marks every submachine as contained (m_is_included: a contained machine never reports
    no_transition itself and forwards exit-point events to its container) and wires the back pointers. */
 extern int g_cs;
+#ifndef HAS_EXPR
+#define HAS_EXPR 0
+#endif
 void init_states_foreach(fsm_t* self)                      /* unit <be>.init_states.foreach */
 __CPROVER_requires(g_cs == 0)                                                     /*@ob C03.construction-starts-from-the-initial-states */
 __CPROVER_assigns(g_cs)
@@ -29,3 +32,51 @@ __CPROVER_requires(__CPROVER_is_fresh(self, sizeof(*self)) && g_cs == 0)
 __CPROVER_assigns(g_cs)
 __CPROVER_ensures(g_cs == 4)                                                                               /*@ob C03,C06.machine-fully-constructed-states-created-and-marked-last */
 ;
+
+/* ---- fill_states / set_containing_sm / add_state: wiring of the substates (run at construction and again after a copy) ---- */
+#if UNIT_ADD_STATE
+extern fsm_t* const g_container; extern const _Bool g_is_composite, g_is_pseudo_exit; extern int g_marked, g_bound, g_smset;
+void sub_set_containing_sm(stref_t substate, fsm_t* containing_sm)           /* at_key<State>(m_substate_list).set_containing_sm(containing_sm) */
+__CPROVER_requires(g_is_composite && g_marked == 0 && containing_sm == g_container)   /*@ob C06,C07.every-submachine-is-marked-as-contained-in-the-machine-that-holds-it */
+__CPROVER_assigns(g_marked)
+__CPROVER_ensures(g_marked == 1)
+;
+void set_forward_fct_bound_to(stref_t exit_state, fsm_t* target)             /* set_forward_fct(bind(&ContainingSM::process_event, containing_sm, _1)) */
+__CPROVER_requires(g_is_pseudo_exit && g_bound == 0 && target == g_container)        /*@ob C09.exit-point-forwards-its-event-to-the-containing-machine */
+__CPROVER_assigns(g_bound)
+__CPROVER_ensures(g_bound == 1)
+;
+extern int g_upper;
+void set_upper_fsm(stref_t substate, fsm_t* upper)                             /* back11: at_key<State>(m_substate_list).m_upper_fsm = containing_sm */
+__CPROVER_requires(g_is_composite && upper == g_container && g_upper == 0)        /*@ob C07.submachine-knows-the-machine-that-holds-it */
+__CPROVER_assigns(g_upper)
+__CPROVER_ensures(g_upper == 1)
+;
+void create_state_set_sm(type_t State, fsm_t* self)
+__CPROVER_requires(g_smset == 0)
+__CPROVER_assigns(g_smset)
+__CPROVER_ensures(g_smset == 1)
+;
+stref_t __CPROVER_uninterpreted_at_key(type_t, slist_t);
+#define at_key __CPROVER_uninterpreted_at_key
+void add_state_call(fsm_t* self, fsm_t* containing_sm, type_t State)
+__CPROVER_requires(__CPROVER_is_fresh(self, sizeof(*self)) && containing_sm == g_container && g_marked == 0 && g_bound == 0 && g_smset == 0 && g_upper == 0 && !(g_is_composite && g_is_pseudo_exit))
+__CPROVER_assigns(g_marked, g_bound, g_smset, g_upper)
+__CPROVER_ensures(g_marked == (g_is_composite ? 1 : 0))                                                   /*@ob C06,C07.every-submachine-is-marked-as-contained-in-the-machine-that-holds-it */
+__CPROVER_ensures(g_bound == (g_is_pseudo_exit ? 1 : 0))                                                  /*@ob C09.exit-point-forwards-its-event-to-the-containing-machine */
+__CPROVER_ensures(g_smset == 1)
+;
+#endif
+#if UNIT_SET_CONTAINING
+extern fsm_t* const g_container; extern int g_wired;
+void wire_substates(fsm_t* self, fsm_t* sm)                                  /* fusion::for_each(m_substate_list, add_state<ContainingSM>(this, sm)) */
+__CPROVER_requires(sm == g_container && g_wired == 0 && self->m_is_included)      /*@ob C06,C07.marked-contained-before-the-substates-are-wired */
+__CPROVER_assigns(g_wired)
+__CPROVER_ensures(g_wired == 1)
+;
+void set_containing_sm(fsm_t* self, fsm_t* sm)
+__CPROVER_requires(__CPROVER_is_fresh(self, sizeof(*self)) && sm == g_container && g_wired == 0)
+__CPROVER_assigns(self->m_is_included, g_wired)
+__CPROVER_ensures(self->m_is_included && g_wired == 1)                                                     /*@ob C06,C07.a-machine-told-its-container-is-contained */
+;
+#endif
